@@ -78,6 +78,12 @@ class CompoundPrior(AbstractPriorModel, ArithmeticMixin, Compound, ABC):
         if self._right_name == "right":
             self._right_name = "right_"
 
+        if self._left_name == self._right_name and left is not right:
+            # different operands must not share one attribute name, else the
+            # left operand is overwritten and its priors vanish from the model
+            self._left_name = "left_"
+            self._right_name = "right_"
+
         self._left = None
         self._right = None
 
